@@ -131,12 +131,78 @@ def refute(eng, o, extra_nonspec, timeout_ms=10000):
 
 
 # ---- ground unfolding (quantifier free) -----------------------------------------------------
+def _quantifiers_in(e, acc, seen):
+    stack = [e]
+    while stack:
+        t = stack.pop()
+        if t.get_id() in seen:
+            continue
+        seen.add(t.get_id())
+        if z3.is_quantifier(t):
+            if t.is_forall() and t.num_vars() == 1 and t.num_patterns() == 1:
+                acc.append(t)
+            continue
+        if z3.is_app(t):
+            stack.extend(t.children())
+
+
+def _index_terms(exprs, seen_terms):
+    """ground applications seq_nth(L, i) / Select(A, i) occurring in exprs: {(decl kind, L id): [(L, i)]}"""
+    table = {}
+    seen = set()
+    stack = list(exprs)
+    while stack:
+        t = stack.pop()
+        if t.get_id() in seen:
+            continue
+        seen.add(t.get_id())
+        if z3.is_quantifier(t):
+            continue
+        if z3.is_app(t):
+            d = t.decl()
+            if t.num_args() == 2 and (d.name() == "seq_nth" or d.kind() == z3.Z3_OP_SELECT):
+                key = (d.name() if d.kind() != z3.Z3_OP_SELECT else "select", t.arg(0).get_id())
+                table.setdefault(key, []).append(t.arg(1))
+            stack.extend(t.children())
+    return table
+
+
+def instantiate_elementwise(exprs, insts, done_q):
+    """Manual e-matching for element-wise facts: for every  forall v. body  (single trigger
+    seq_nth(L, v) or Select(A, v)) found inside `insts`, and every ground index i such that
+    seq_nth(L, i) occurs in exprs+insts, the instance  Q => body[v := i]  (always sound)."""
+    qs = []
+    _quantifiers_in(z3.And(insts) if len(insts) > 1 else (insts[0] if insts else z3.BoolVal(True)), qs, set())
+    if not qs:
+        return []
+    table = _index_terms(list(exprs) + list(insts), None)
+    out = []
+    for q in qs:
+        pat = q.pattern(0)
+        if pat.num_args() != 1:
+            continue
+        trig = pat.arg(0)
+        if not (z3.is_app(trig) and trig.num_args() == 2 and z3.is_var(trig.arg(1))):
+            continue
+        d = trig.decl()
+        key = (d.name() if d.kind() != z3.Z3_OP_SELECT else "select", trig.arg(0).get_id())
+        for i in table.get(key, []):
+            sig = (q.get_id(), i.get_id())
+            if sig in done_q:
+                continue
+            done_q.add(sig)
+            inst = z3.substitute_vars(q.body(), i)
+            out.append(z3.Implies(q, inst))
+    return out
+
+
 def ground_unfold(eng, exprs, depth=1, limit=400, done=None):
     """Instances of the definitional axioms for the spec applications occurring in exprs,
     iterated `depth` times over the applications the instances introduce."""
     names = {f"spec_{n}": n for n in eng.spec_decls}
     out = []
     done = set() if done is None else done
+    done_q = set()
     frontier = list(exprs)
     for _ in range(depth):
         apps = []
@@ -169,6 +235,12 @@ def ground_unfold(eng, exprs, depth=1, limit=400, done=None):
             if nat:
                 out.append(a >= 0)
             frontier.append(inst)
+        try:
+            extra = instantiate_elementwise(exprs, out, done_q)
+        except Exception:
+            extra = []
+        out.extend(extra)
+        frontier.extend(extra)
         if not frontier:
             break
     return out
